@@ -1,6 +1,5 @@
 use crate::{
-    builtins::TZ_PROVIDER, options::ToStringRoundingOptions, Instant, TemporalError,
-    TemporalResult, TimeZone,
+    builtins::TZ_PROVIDER, options::ToStringRoundingOptions, Instant, TemporalResult, TimeZone,
 };
 use alloc::string::String;
 
@@ -16,7 +15,8 @@ impl Instant {
     ) -> TemporalResult<String> {
         let provider = TZ_PROVIDER
             .lock()
-            .map_err(|_| TemporalError::general("Unable to acquire lock"))?;
+            // NOTE: A panic in an earlier call poisons the lock; the provider is still usable.
+            .unwrap_or_else(std::sync::PoisonError::into_inner);
 
         self.to_ixdtf_string_with_provider(timezone, options, &*provider)
     }
